@@ -12,10 +12,15 @@ comment prefixes, the TS span formula).  Fail-closed: an unexpected shape raises
   loc_strip_calls       count_loc strips each line with str.strip() (no argument) before testing it
   dry_block_window      `# dry: ignore-block` covers the next N lines (a documented position-sensitive directive; the
                         harness never inserts inside that window)
+  block_filters         the three text-only DRY block filters (ImportGroupFilter, LoggerCallFilter, ExceptionReraiseFilter) as a
+                        template: every statement of should_filter / _is_except_raise_pattern is matched against the shape
+                        Model/EditFilter.v transcribes, the literals (prefixes, counts, comparisons, the alternatives of the logger
+                        pattern) are generated; the registration order and the `any` of the registry
 """
 import ast
+import re
 
-from translator.lib import Unsupported, coq_str_list, coq_string, defn, find_class, find_func, parse
+from translator.lib import CMP, Unsupported, coq_str_list, coq_string, defn, find_class, find_func, parse
 
 GEN_FILE = "EditGen"
 HEADER = "From TL Require Import Lib.Base Lib.GenTypes."
@@ -30,6 +35,8 @@ FINGERPRINTS = [
     ("src/linters/dry/typescript_analyzer.py", ["_tokenize_with_line_numbers", "_normalize_and_filter_line"]),
     ("src/linters/dry/inline_ignore.py", ["InlineIgnoreParser"]),
     ("src/linter_config/ignore.py", ["_read_file_first_lines", "_has_file_ignore_in_content", "_is_ignored_in_content"]),
+    ("src/linters/dry/block_filter.py", ["ImportGroupFilter", "LoggerCallFilter", "ExceptionReraiseFilter", "BlockFilterRegistry",
+                                          "create_default_registry"]),
 ]
 
 
@@ -146,6 +153,138 @@ def dry_block_window():
     return defn("dry_block_window", "nat", str(hits[0]))
 
 
+def _stmts(f: ast.FunctionDef) -> list[ast.stmt]:
+    b = f.body
+    if b and isinstance(b[0], ast.Expr) and isinstance(b[0].value, ast.Constant) and isinstance(b[0].value.value, str):
+        b = b[1:]
+    return b
+
+
+def _src(f: ast.FunctionDef) -> list[str]:
+    return [ast.unparse(x) for x in _stmts(f)]
+
+
+SLICE = "lines = file_content.split('\\n')[block.start_line - 1:block.end_line]"
+STRIPPED = "{v} = [s for line in lines if (s := line.strip())]"
+
+
+def _lit(e: ast.expr, what: str) -> str:
+    if not (isinstance(e, ast.Constant) and isinstance(e.value, str)):
+        raise Unsupported(f"{what}: not a string literal: {ast.unparse(e)}")
+    return e.value
+
+
+def _len_test(stmt: ast.stmt, var: str, what: str) -> tuple[str, int]:
+    """`if len(<var>) <op> <int>:` -> (cmp constructor, int)"""
+    if not (isinstance(stmt, ast.If) and not stmt.orelse and isinstance(stmt.test, ast.Compare) and len(stmt.test.ops) == 1
+            and ast.unparse(stmt.test.left) == f"len({var})" and type(stmt.test.ops[0]) in CMP
+            and isinstance(stmt.test.comparators[0], ast.Constant) and type(stmt.test.comparators[0].value) is int
+            and stmt.test.comparators[0].value >= 0):
+        raise Unsupported(f"{what}: unexpected length test {ast.unparse(stmt)}")
+    return CMP[type(stmt.test.ops[0])], stmt.test.comparators[0].value
+
+
+def _method_call(e: ast.expr, obj: str, meth: str, what: str) -> str:
+    if not (isinstance(e, ast.Call) and isinstance(e.func, ast.Attribute) and e.func.attr == meth and ast.unparse(e.func.value) == obj
+            and len(e.args) == 1 and not e.keywords):
+        raise Unsupported(f"{what}: expected {obj}.{meth}(<literal>), found {ast.unparse(e)}")
+    return _lit(e.args[0], what)
+
+
+def block_filters():
+    m = parse("src/linters/dry/block_filter.py")
+    # --- ImportGroupFilter: every non-blank stripped line starts with one of the prefixes
+    f = find_func(find_class(m, "ImportGroupFilter"), "should_filter")
+    st = _stmts(f)
+    if len(st) != 3 or ast.unparse(st[0]) != SLICE or ast.unparse(st[2]) != "return True" or not isinstance(st[1], ast.For) \
+            or ast.unparse(st[1].target) != "line" or ast.unparse(st[1].iter) != "lines" or st[1].orelse or len(st[1].body) != 3 \
+            or ast.unparse(st[1].body[0]) != "stripped = line.strip()" or ast.unparse(st[1].body[1]) != "if not stripped:\n    continue":
+        raise Unsupported(f"ImportGroupFilter.should_filter changed: {_src(f)}")
+    test = st[1].body[2]
+    if not (isinstance(test, ast.If) and not test.orelse and [ast.unparse(x) for x in test.body] == ["return False"]
+            and isinstance(test.test, ast.UnaryOp) and isinstance(test.test.op, ast.Not) and isinstance(test.test.operand, ast.BoolOp)
+            and isinstance(test.test.operand.op, ast.Or)):
+        raise Unsupported(f"ImportGroupFilter: unexpected line test {ast.unparse(test)}")
+    prefixes = [_method_call(v, "stripped", "startswith", "ImportGroupFilter") for v in test.test.operand.values]
+    # --- LoggerCallFilter: exactly <count> non-blank stripped lines and the first one matches the pattern
+    c = find_class(m, "LoggerCallFilter")
+    init = _src(find_func(c, "__init__"))
+    mm = re.fullmatch(r"self\._logger_pattern = re\.compile\((?P<q>'|\")(?P<pat>.*)(?P=q)\)", init[0]) if len(init) == 1 else None
+    if not mm:
+        raise Unsupported(f"LoggerCallFilter.__init__ changed: {init}")
+    pats = [n for n in ast.walk(find_func(c, "__init__")) if isinstance(n, ast.Call) and ast.unparse(n.func) == "re.compile"]
+    if len(pats) != 1 or len(pats[0].args) != 1 or pats[0].keywords:
+        raise Unsupported("LoggerCallFilter: pattern flags / arguments")
+    pat = _lit(pats[0].args[0], "logger pattern")
+    pm = re.fullmatch(r"\^\\s\*\((?P<self>[A-Za-z_]+)\\\.\)\?\((?P<names>[A-Za-z_|]+)\)\\\.\((?P<meths>[A-Za-z_|]+)\)\\s\*\\\(", pat)
+    if not pm:
+        raise Unsupported(f"logger pattern changed: {pat!r} (Model/EditFilter.v logger_match transcribes ^\\s*(self\\.)?(n1|..)\\.(m1|..)\\s*\\( )")
+    names, meths = pm.group("names").split("|"), pm.group("meths").split("|")
+    if "" in names or "" in meths:
+        raise Unsupported("logger pattern: empty alternative")
+    f = find_func(c, "should_filter")
+    st = _stmts(f)
+    if len(st) != 5 or ast.unparse(st[0]) != SLICE or ast.unparse(st[1]) != STRIPPED.format(v="non_empty") \
+            or ast.unparse(st[2]) != "if not non_empty:\n    return False" or ast.unparse(st[4]) != "return False" \
+            or not isinstance(st[3], ast.If) or [ast.unparse(x) for x in st[3].body] != ["return bool(self._logger_pattern.match(non_empty[0]))"]:
+        raise Unsupported(f"LoggerCallFilter.should_filter changed: {_src(f)}")
+    lg_cmp, lg_n = _len_test(st[3], "non_empty", "LoggerCallFilter")
+    # --- ExceptionReraiseFilter: exactly <count> non-blank stripped lines, `except ...:` then `raise ... from ...`
+    c = find_class(m, "ExceptionReraiseFilter")
+    f = find_func(c, "should_filter")
+    st = _stmts(f)
+    if len(st) != 4 or ast.unparse(st[0]) != SLICE or ast.unparse(st[1]) != STRIPPED.format(v="stripped_lines") \
+            or not isinstance(st[2], ast.If) or [ast.unparse(x) for x in st[2].body] != ["return False"] \
+            or ast.unparse(st[3]) != "return self._is_except_raise_pattern(stripped_lines)":
+        raise Unsupported(f"ExceptionReraiseFilter.should_filter changed: {_src(f)}")
+    rr_cmp, rr_n = _len_test(st[2], "stripped_lines", "ExceptionReraiseFilter")
+    g = find_func(c, "_is_except_raise_pattern")
+    st = _stmts(g)
+    if len(st) != 4 or ast.unparse(st[0]) != "first, second = (lines[0], lines[1])" or ast.unparse(st[3]) != "return is_except and is_raise":
+        raise Unsupported(f"_is_except_raise_pattern changed: {_src(g)}")
+    lits = []
+    for stmt, var, target, second in ((st[1], "first", "is_except", "endswith"), (st[2], "second", "is_raise", "in")):
+        if not (isinstance(stmt, ast.Assign) and ast.unparse(stmt.targets[0]) == target and isinstance(stmt.value, ast.BoolOp)
+                and isinstance(stmt.value.op, ast.And) and len(stmt.value.values) == 2):
+            raise Unsupported(f"_is_except_raise_pattern: {ast.unparse(stmt)}")
+        a, b = stmt.value.values
+        lits.append(_method_call(a, var, "startswith", target))
+        if second == "endswith":
+            lits.append(_method_call(b, var, "endswith", target))
+        else:
+            if not (isinstance(b, ast.Compare) and len(b.ops) == 1 and isinstance(b.ops[0], ast.In) and ast.unparse(b.comparators[0]) == var):
+                raise Unsupported(f"_is_except_raise_pattern: {ast.unparse(b)}")
+            lits.append(_lit(b.left, target))
+    # --- the registry: `any` over the registered filters, in registration order
+    reg = find_class(m, "BlockFilterRegistry")
+    if _src(find_func(reg, "should_filter_block")) != ["enabled_filters = (f for f in self._filters if f.name in self._enabled_filters)",
+                                                       "return any((f.should_filter(block, file_content) for f in enabled_filters))"]:
+        raise Unsupported("BlockFilterRegistry.should_filter_block changed")
+    if _src(find_func(reg, "register")) != ["self._filters.append(filter_instance)", "self._enabled_filters.add(filter_instance.name)"]:
+        raise Unsupported("BlockFilterRegistry.register changed")
+    order = []
+    for stmt in _stmts(find_func(m, "create_default_registry")):
+        t = ast.unparse(stmt)
+        mm = re.fullmatch(r"registry\.register\((\w+)\((.*)\)\)", t)
+        if mm:
+            cls = find_class(m, mm.group(1))
+            nm = _src(find_func(cls, "name"))
+            nmm = re.fullmatch(r"return '(\w+)'", nm[0]) if len(nm) == 1 else None
+            if not nmm or (mm.group(2) and mm.group(1) != "KeywordArgumentFilter"):
+                raise Unsupported(f"create_default_registry: {t}")
+            order.append(nmm.group(1))
+        elif t not in ("registry = BlockFilterRegistry()", "return registry"):
+            raise Unsupported(f"create_default_registry: {t}")
+    return (defn("flt_import_prefixes", "list string", coq_str_list(prefixes))
+            + defn("flt_logger_self", "string", coq_string(pm.group("self") + "."))
+            + defn("flt_logger_names", "list string", coq_str_list(names))
+            + defn("flt_logger_methods", "list string", coq_str_list(meths))
+            + defn("flt_logger_cmp", "cmp", lg_cmp) + defn("flt_logger_count", "nat", str(lg_n))
+            + defn("flt_reraise_cmp", "cmp", rr_cmp) + defn("flt_reraise_count", "nat", str(rr_n))
+            + defn("flt_reraise_lits", "list string", coq_str_list(lits))
+            + defn("flt_registry", "list string", coq_str_list(order)))
+
+
 ITEMS = [
     ("file_lines_sep", file_lines_sep),
     ("file_read_encoding", file_read_encoding),
@@ -155,4 +294,5 @@ ITEMS = [
     ("block_filter_line_seps", block_filter_line_seps),
     ("loc_strip_calls", loc_strip_calls),
     ("dry_block_window", dry_block_window),
+    ("block_filters", block_filters),
 ]
